@@ -12,7 +12,7 @@ use std::time::{Duration, UNIX_EPOCH};
 
 pub const LEVEL: &str = "exploration";
 pub const EXHAUSTIVE: bool = false;
-pub const RULE: &str = "generated case = (cfg1, cfg2) over phonetic<->Probhat, phonetic<->synthetic, Probhat<->synthetic and same layout with 1..11 option flips (same data directory); optional initial user auto-correct file; pre-history H1 of 0..5 words (typed, then finished or committed - also non-preselected, i.e. learned); user auto-correct edit in {none, create, change the value of a key typed in H1, add a key for a base of a word typed in H1, remove a key, delete the file} with the file's mtime forced forward; continuation H2 of 1..6 words that re-types words of H1 and new ones, with commits. Oracle (differential): context A = H1, edit, update-engine(cfg2), H2; context B = created with cfg2 over a COPY of the user directory taken at the update, H2; renderings and session flags equal after every key of H2. Non-trivial: the edit touches a word (or a base of a word) typed in H1 and in H2, or the layout changes, or the suggestion option flips; distinct by case.";
+pub const RULE: &str = "generated case = (cfg1, cfg2) over phonetic<->Probhat, phonetic<->synthetic, Probhat<->synthetic and same layout with 1..11 option flips (same data directory); optional initial user auto-correct file; pre-history H1 of 0..5 words (typed, then finished or committed - also non-preselected, i.e. learned); user auto-correct edit in {none, create, change the value of a key typed in H1, add a key for a base of a word typed in H1, remove a key, delete the file} with the file's mtime forced forward; continuation H2 of 1..6 words that re-types words of H1 and new ones, with commits. Oracle (differential): context A = H1, edit, update-engine(cfg2), H2; context B = created with cfg2 over a COPY of the user directory taken at the update, H2; renderings and session flags equal after every key of H2. Non-trivial: the edit touches a word (or a base of a word) typed in H1 and in H2, or the layout changes, or the suggestion option flips; distinct by case. Plus an enumerated part: every SINGLE option flipped by update-engine (11 options x both directions via 6 base settings x 3 layouts), judged on a battery of probes that is sensitive to each option (quoted word, sign at the start, sign after chandrabindu, u-sign after a consonant, reph, left-standing sign first, dictionary prefix, number-pad keys, emoticon; phonetic: quoted words, emoticon, emoji name, learned word, suffix form). Layout pairs include Probhat <-> a different layout file with the same file NAME in another directory.";
 pub const ASSUMPTIONS: &[&str] = &[
     "mtime is forced forward on every edit, so 'edited in the meantime' is unambiguous",
     "the bundled data directory is the same in cfg1 and cfg2",
